@@ -152,6 +152,7 @@ full_harness! {
 // @oracle Ok; the writer receives exactly one vectored write whose bytes equal, at every position (symbolic index), the expected single newline-terminated JSON line; the numbers formatted are the entry's value and the timestamp in epoch milliseconds
 // @stubs hashbrown -> kani_hashbrown model; Emf state from verif_hooks::emf_small; SmallVec::try_grow asserted never to spill; tracing x4, Instant::now, alloc::fmt::format, String/Vec no-realloc models, itoa/dtoa recording stubs (tokens "7"/"5")
 // @outside other namespaces/dimension configurations, split records, entry dimensions, names needing escapes in finish()
+// @probe 8,8
 #[kani::unwind(6)]
 pub fn whole_format_metric_and_string() {
     stubs::reset_logs();
@@ -245,6 +246,7 @@ full_harness! {
 // @encodes Emf::format_with_multiplicity(Some(n)) incl. finish(), write_observation (count = multiplicity)
 // @bounds entry = timestamp + metric "A" = Unsigned(any); multiplicity Some(any u64); validations off
 // @oracle exactly the histogram-form record; the three integers formatted are the value, the multiplicity (as the count) and the timestamp
+// @probe 8,8,8
 #[kani::unwind(6)]
 pub fn whole_format_sampled() {
     stubs::reset_logs();
@@ -331,6 +333,7 @@ full_harness! {
 // @encodes Emf::format with a writer that fails (write_all_vectored error return out of finish()), then a second Emf::format on the same formatter
 // @bounds validations off; first call: a valid entry into a writer whose first write fails hard; second call: timestamp + metric "A" = Unsigned(any) + string "B"
 // @oracle the first call surfaces the I/O error; the second call is Ok and writes exactly the record a fresh formatter writes - no leftovers from the failed entry
+// @probe 8,8,8
 #[kani::unwind(6)]
 pub fn whole_format_second_entry_after_io_error() {
     second_entry_after(true)
